@@ -62,8 +62,12 @@ Diag2Inv(a, b) == LET k == IF a.ik > b.ik THEN a.ik ELSE b.ik IN
                Mk(2, 2, k, LAMBDA i, j : IF i # j THEN C(0, 0) ELSE IF i = 1 THEN CScale(a.ic, Pow2(k - a.ik)) ELSE CScale(b.ic, Pow2(k - b.ik)))
 \* ---- leaves -------------------------------------------------------------------------------------------------------
 ALL == 15   TA == 3
+\* sf / si (C13): the operator MUST be able to draw a Gaussian sample with covariance M / with covariance Mi (given a sampling
+\* dtype): scalings, diagonals and block diagonals with strictly positive real entries and no left-out key
 Leaf(kind, args, dom, tgt, M, Mi, hMi, cap, psd) ==
-  [e |-> [op |-> "leaf", k |-> kind, a |-> args, x |-> 0, y |-> 0], dom |-> dom, tgt |-> tgt, M |-> M, Mi |-> Mi, hM |-> TRUE, hMi |-> hMi, cap |-> cap, psd |-> psd]
+  [e |-> [op |-> "leaf", k |-> kind, a |-> args, x |-> 0, y |-> 0], dom |-> dom, tgt |-> tgt, M |-> M, Mi |-> Mi, hM |-> TRUE, hMi |-> hMi, cap |-> cap, psd |-> psd,
+   sf |-> psd /\ kind \in {"scaling", "diag", "diag0", "diag1", "block"} /\ args[2] # "id",
+   si |-> psd /\ kind \in {"scaling", "diag", "diag0", "diag1", "block"} /\ args[2] # "id"]
 DiagPairs == {<<"1", "2">>, <<"i", "-1">>, <<"1/2", "1+i">>, <<"2", "1/2">>}
 Leaves ==
      {Leaf("scaling", <<s.nm, sp>>, sp, sp, MScale(MId(Dim(sp)), s.c, s.k), MScale(MId(Dim(sp)), s.ic, s.ik), TRUE, ALL, s.realpos) : s \in Scalars, sp \in {"U", "UU", "MD"}}
@@ -99,28 +103,31 @@ MkSum == \E a, b \in SI, neg \in BOOLEAN :
            /\ Push([e |-> E2(IF neg THEN "sub" ELSE "add", a, b), dom |-> slots[a].dom, tgt |-> slots[a].tgt,
                     M |-> MAdd(slots[a].M, IF neg THEN MNeg(slots[b].M) ELSE slots[b].M), Mi |-> MZero(Dim(slots[a].dom), Dim(slots[a].tgt)),
                     hM |-> slots[a].hM /\ slots[b].hM, hMi |-> FALSE, cap |-> And(TA, And(slots[a].cap, slots[b].cap)),
-                    psd |-> ~neg /\ slots[a].psd /\ slots[b].psd])
+                    psd |-> ~neg /\ slots[a].psd /\ slots[b].psd,
+                    sf |-> ~neg /\ slots[a].sf /\ slots[b].sf, si |-> FALSE])      \* a sum draws forward as the sum of independent draws
 MkChain == \E a, b \in SI :
            /\ slots[a].dom = slots[b].tgt
            /\ Push([e |-> E2("chain", a, b), dom |-> slots[b].dom, tgt |-> slots[a].tgt, M |-> MMul(slots[a].M, slots[b].M), Mi |-> MMul(slots[b].Mi, slots[a].Mi),
-                    hM |-> slots[a].hM /\ slots[b].hM, hMi |-> slots[a].hMi /\ slots[b].hMi, cap |-> And(slots[a].cap, slots[b].cap), psd |-> FALSE])
+                    hM |-> slots[a].hM /\ slots[b].hM, hMi |-> slots[a].hMi /\ slots[b].hMi, cap |-> And(slots[a].cap, slots[b].cap), psd |-> FALSE, sf |-> FALSE, si |-> FALSE])
 MkAdj == \E a \in SI : Push([e |-> E2("adjoint", a, 0), dom |-> slots[a].tgt, tgt |-> slots[a].dom, M |-> MH(slots[a].M), Mi |-> MH(slots[a].Mi),
-                             hM |-> slots[a].hM, hMi |-> slots[a].hMi, cap |-> SwapAdj(slots[a].cap), psd |-> slots[a].psd])
+                             hM |-> slots[a].hM, hMi |-> slots[a].hMi, cap |-> SwapAdj(slots[a].cap), psd |-> slots[a].psd, sf |-> slots[a].sf, si |-> slots[a].si])
 MkInv == \E a \in SI : Push([e |-> E2("inverse", a, 0), dom |-> slots[a].tgt, tgt |-> slots[a].dom, M |-> slots[a].Mi, Mi |-> slots[a].M,
-                             hM |-> slots[a].hMi, hMi |-> slots[a].hM, cap |-> SwapInv(slots[a].cap), psd |-> slots[a].psd])
+                             hM |-> slots[a].hMi, hMi |-> slots[a].hM, cap |-> SwapInv(slots[a].cap), psd |-> slots[a].psd, sf |-> slots[a].si, si |-> slots[a].sf])
 MkNeg == \E a \in SI : Push([e |-> E2("neg", a, 0), dom |-> slots[a].dom, tgt |-> slots[a].tgt, M |-> MNeg(slots[a].M), Mi |-> MNeg(slots[a].Mi),
-                             hM |-> slots[a].hM, hMi |-> slots[a].hMi, cap |-> slots[a].cap, psd |-> FALSE])
+                             hM |-> slots[a].hM, hMi |-> slots[a].hMi, cap |-> slots[a].cap, psd |-> FALSE, sf |-> FALSE, si |-> FALSE])
 MkScale == \E a \in SI, s \in Scalars :
              Push([e |-> [op |-> "scale", k |-> s.nm, a |-> <<"", "">>, x |-> a, y |-> 0], dom |-> slots[a].dom, tgt |-> slots[a].tgt,
                    M |-> MScale(slots[a].M, s.c, s.k), Mi |-> MScale(slots[a].Mi, s.ic, s.ik), hM |-> slots[a].hM, hMi |-> slots[a].hMi, cap |-> slots[a].cap,
-                   psd |-> slots[a].psd /\ s.realpos])
+                   psd |-> slots[a].psd /\ s.realpos, sf |-> FALSE, si |-> FALSE])
 \* SandwichOperator.make(bun, cheese) = bun^H cheese bun
 MkSandwich == \E a, b \in SI :
              /\ slots[b].dom = slots[b].tgt /\ slots[a].tgt = slots[b].dom
              /\ Push([e |-> E2("sandwich", a, b), dom |-> slots[a].dom, tgt |-> slots[a].dom,
                       M |-> MMul(MH(slots[a].M), MMul(slots[b].M, slots[a].M)), Mi |-> MMul(slots[a].Mi, MMul(slots[b].Mi, MH(slots[a].Mi))),
                       hM |-> slots[a].hM /\ slots[b].hM, hMi |-> slots[a].hMi /\ slots[b].hMi,
-                      cap |-> And(And(SwapAdj(slots[a].cap), slots[b].cap), slots[a].cap), psd |-> slots[b].psd])
+                      cap |-> And(And(SwapAdj(slots[a].cap), slots[b].cap), slots[a].cap), psd |-> slots[b].psd,
+                      \* bun^H cheese bun draws forward as bun^H(draw cheese); from the inverse as bun^-1(draw cheese^-1) if bun is invertible
+                      sf |-> slots[b].sf, si |-> slots[b].si /\ Bit(slots[a].cap, 2) = 1])
 Next == MkLeaf \/ MkSum \/ MkChain \/ MkAdj \/ MkInv \/ MkNeg \/ MkScale \/ MkSandwich
 Spec == Init /\ [][Next]_slots
 Last == slots[Len(slots)]
@@ -132,9 +139,11 @@ Shapes == \A i \in SI : slots[i].M.n = Dim(slots[i].tgt) /\ slots[i].M.m = Dim(s
 TableLaw == \A c \in 0..15 : SwapAdj(SwapAdj(c)) = c /\ SwapInv(SwapInv(c)) = c /\ SwapAdj(SwapInv(c)) = SwapInv(SwapAdj(c))
 ASSUME TableLaw
 \* a positive semi-definite slot is Hermitian with non-negative real diagonal
+\* whatever must be samplable is a covariance: Hermitian PSD, and for inverse draws the inverse is defined
+SampLaw == \A i \in SI : (slots[i].sf => slots[i].psd /\ slots[i].hM) /\ (slots[i].si => slots[i].hMi)
 PsdLaw == \A i \in SI : slots[i].psd => (slots[i].dom = slots[i].tgt /\ MEq(slots[i].M, MH(slots[i].M)) /\ \A d \in Ix(slots[i].M.n) : Ent(slots[i].M, d, d)[1] >= 0 /\ Ent(slots[i].M, d, d)[2] = 0)
 MatJ(A) == [n |-> A.n, m |-> A.m, k |-> A.k, rows |-> [i \in Ix(A.n) |-> [j \in Ix(A.m) |-> [re |-> Ent(A, i, j)[1], im |-> Ent(A, i, j)[2]]]]]
 Emit == (EmitAll /\ Len(slots) = MaxSlots) =>
            PrintT(ToJson([prog |-> [i \in SI |-> slots[i].e], dom |-> Last.dom, tgt |-> Last.tgt, M |-> MatJ(Last.M), Mi |-> MatJ(Last.Mi),
-                          hM |-> Last.hM, hMi |-> Last.hMi, rcap |-> Last.cap, psd |-> Last.psd]))
+                          hM |-> Last.hM, hMi |-> Last.hMi, rcap |-> Last.cap, psd |-> Last.psd, sf |-> Last.sf, si |-> Last.si]))
 =============================================================================
